@@ -56,16 +56,16 @@ type xcase struct {
 }
 
 type xrun struct {
-	w        *CaseWriter
-	id       int64
-	n        int
-	viol     int
-	byFam    map[string]int
-	deadline time.Duration
-	maxAlloc uint64
-	famAlloc map[string]uint64
+	w             *CaseWriter
+	id            int64
+	n             int
+	viol          int
+	byFam         map[string]int
+	deadline      time.Duration
+	maxAlloc      uint64
+	famAlloc      map[string]uint64
 	pluginReached int
-	sample   []metrics.Sample
+	sample        []metrics.Sample
 }
 
 func (x *xrun) allocs() uint64 {
@@ -909,9 +909,9 @@ func exploreGraph(x *xrun, r *Rng, e *env, ctx context.Context, n int) {
 			}
 			man := map[string]any{
 				"schemaVersion": 2, "mediaType": ocispec.MediaTypeImageManifest, "artifactType": artNotation,
-				"config":  map[string]any{"mediaType": artNotation, "digest": ocispec.DescriptorEmptyJSON.Digest, "size": 2},
-				"layers":  []any{layer},
-				"subject": subject,
+				"config":      map[string]any{"mediaType": artNotation, "digest": ocispec.DescriptorEmptyJSON.Digest, "size": 2},
+				"layers":      []any{layer},
+				"subject":     subject,
 				"annotations": map[string]any{"io.cncf.notary.x509chain.thumbprint#S256": "[]"},
 			}
 			mt := ocispec.MediaTypeImageManifest
